@@ -31,7 +31,7 @@ var flatKeys = []string{
 	"arr", "amin", "amax", "auniq", "single",
 	"kind", "fmt",
 	"min", "max", "emin", "emax", "minl", "maxl", "pat", "const", "in", "nin",
-	"sfmt", "kf", "kpat", "pk", "fk", "tk", "ref", "flat", "od", "types", "lr", "epfx", "eopts",
+	"sfmt", "kf", "kpat", "pk", "fk", "tk", "ref", "flat", "od", "types", "lr", "epfx", "edesc", "eopts",
 }
 
 func newFlat() *Flat {
